@@ -205,7 +205,6 @@ func (r *ReconcileNode) createOrUpdate(ctx context.Context, k8sNode *corev1.Node
 
 	update := node.DeepCopy()
 	_, err = controllerutil.CreateOrPatch(ctx, r.client, update, func() error {
-		update.Status = node.Status
 		update.Spec = node.Spec
 		update.Labels = node.Labels
 		return nil
@@ -399,7 +398,6 @@ func (r *ReconcileNode) handleEFLO(ctx context.Context, k8sNode *corev1.Node, no
 
 	update := node.DeepCopy()
 	_, err = controllerutil.CreateOrPatch(ctx, r.client, update, func() error {
-		update.Status = node.Status
 		update.Spec = node.Spec
 		update.Labels = node.Labels
 		return nil
